@@ -92,7 +92,7 @@ def run_enum(model, cfg=None, mon_spec=None, max_solutions=20000, stop_after=Non
     solver = None
     try:
         solver = M.build_solver(model, cfg, **(solver_kw or {}))
-        for mk in ("stats", "branch"):
+        for mk in ("stats", "branch", "schedule"):
             if mk in mons:
                 mons[mk].bind(solver)
         n = 0
